@@ -682,6 +682,90 @@ def r19_5(prog, rep, rid="R19.5"):
         rep.broken_("rule=%s expected >=8 instances, found %d" % (rid, n))
 
 
+def r19_11(prog, rep, rid="R19.11"):
+    """(a) Turning a single stored value into a bitset ("degrade") must leave the representation tag — bit 0 of the unsigned word,
+    of `.pos` in the signed containers — clear on every path: the tag word is assigned 0 or `1 << E` there.  A path that keeps the tag
+    makes every later reader take the bitset for a number.  (b) The cursor of an unsigned iterator runs up to the width of the word
+    minus one; a single shift by `cursor + c`, c > 0, can reach the width itself (undefined, a no-op on the usual machines): the
+    iterators shift in two steps."""
+    n = 0
+    for f in prog.fns_in("bitint.h"):
+        if not f.cfg or not f.name.startswith("ass_"):
+            continue
+        cfg = f.cfg
+        tag = None
+        for b in cfg.blocks:
+            c = cfg.cond(b)
+            if c is None:
+                continue
+            c = strip_casts(strip(c))
+            if c.get("k") == "bin" and c["op"] == "&" and int_value(c["r"]) == 1:
+                tag = (b, lv(strip_casts(c["l"])))
+        if tag is None:
+            continue
+        tb, word = tag
+        succ = cfg.blocks[tb].succs[0]
+        if succ is None:
+            continue
+
+        def effect(b, i, x, store, word=word, cfg=cfg):
+            upd = {}
+            if isinstance(x, dict):
+                for l, kind, nn in writes(x):
+                    if lv(l) != word or kind != "assign":
+                        continue
+                    r = strip_casts(cfg.resolve(nn["r"]))
+                    v = int_value(r)
+                    if (v is not None and v % 2 == 0) or (r.get("k") == "bin" and r["op"] == "<<" and int_value(r["l"]) == 1):
+                        upd["$clear"] = 1
+                    else:
+                        upd["$clear"] = 0
+            return upd
+        w = AbsWalk(f, set(), init={"$clear": 0}, effect=effect, max_states=5000)
+        w.run(start_block=succ)
+        n += 1
+        key = "%s/degrade-clears-the-tag" % f.name
+        if w.exit_stores and all(st.get("$clear") == 1 for st in w.exit_stores):
+            rep.ok(rid, key, f.loc(), "every path from the `single value` branch assigns the tag word 0 or a single member bit")
+        else:
+            rep.fail(rid, key, f.loc(), "a path through the degrade branch of %s() leaves `%s` as it was: the tag bit stays set, and what is a bitset from now on "
+                     "is read as one number by the iterator and the membership test (a container that started with a value <= 0 loses "
+                     "every later member)" % (f.name, word))
+    m = 0
+    for f in prog.fns_in("bitint.h"):
+        if not f.cfg or not f.name.endswith("_next") or not f.params:
+            continue
+        cfg = f.cfg
+        cur = f.params[0]["n"]
+        for b, i, x, line in cfg.all_elems():
+            if not isinstance(x, dict):
+                continue
+            for q in walk(cfg.resolve(x)):
+                amt = None
+                if q.get("k") == "bin" and q["op"] in ("<<", ">>", "<<=", ">>="):
+                    amt = q["r"]
+                if amt is None:
+                    continue
+                a = strip_casts(amt)
+                reads_cursor = any(r_.get("k") == "un" and r_.get("op") == "*" and lv(strip_casts(r_["e"])) == cur for r_ in walk(a))
+                if not reads_cursor:
+                    continue
+                m += 1
+                key = "%s/shift-by-cursor@%s" % (f.name, show(a)[:20])
+                plus = a.get("k") == "bin" and a["op"] == "+" and (int_value(a["r"]) or 0) > 0 or \
+                    a.get("k") == "bin" and a["op"] == "+" and (int_value(a["l"]) or 0) > 0
+                if plus:
+                    rep.fail(rid, key, f.loc(q.get("line", line)), "the word is shifted by `%s` in one step: the cursor reaches the width of the word minus one after the "
+                             "largest member, the shift count then equals the width — undefined, in practice no shift at all, and the iteration "
+                             "over a set that holds the largest member never ends" % show(a)[:30])
+                else:
+                    rep.ok(rid, key, f.loc(q.get("line", line)), "shift count is the cursor itself (below the width)", nontrivial=False)
+    if n < 2:
+        rep.broken_("rule=%s expected >=2 assign functions with a representation tag in bitint.h, found %d" % (rid, n))
+    if m < 2:
+        rep.broken_("rule=%s expected >=2 shifts by the cursor in the iterators of bitint.h, found %d" % (rid, m))
+
+
 def r19_6(prog, rep, rid="R19.6"):
     """(a) membership tests split the value by the same strict `0 < x` as the assign functions (0 lives in the negative word, bit 0 of the
     positive word is the tag); (b) a member bit destined for a 64-bit word is shifted in 64 bits; (c) when the native list is turned into a
